@@ -219,8 +219,9 @@ class LoopInv(object):
     ghost_init(view) -> {name: T},  ghost_step(view) -> {name: T}
     """
     def __init__(self, name, inv, shapes=None, ghost_init=None, ghost_step=None, ghost_sorts=None, min_iters=0,
-                 hints=None, observe=None):
+                 hints=None, observe=None, havoc=None):
         self.name, self.inv = name, inv
+        self.havoc = havoc or {}        # name -> callable(ctx) producing the havoc'd value (custom kinds)
         self.observe = observe          # callable(view) -> dict recorded as event 'loop_body_end' (preserve leg)
         self.shapes = shapes or {}
         self.ghost_init, self.ghost_step = ghost_init, ghost_step
@@ -668,10 +669,15 @@ class Interp(object):
         c = State.ctx
         is_for = isinstance(s, ast.For)
         names, stores = self._assigned_names(s.body + ([ast.Assign(targets=[s.target], value=ast.Constant(0))] if False else []))
+        seq = None
         if is_for:
-            if not isinstance(iterable, (range, GenRange)):
+            if hasattr(iterable, 'sym_seq_elem'):
+                seq = iterable                        # a sequence of symbolic length with a generic element
+                N = values.to_term(iterable.sym_seq_len())
+            elif not isinstance(iterable, (range, GenRange)):
                 raise Unsupported('invariant loop over a non-range iterable')
-            N = ir.const(len(iterable)) if isinstance(iterable, range) else values.to_term(iterable.n)
+            else:
+                N = ir.const(len(iterable)) if isinstance(iterable, range) else values.to_term(iterable.n)
         pre = {k: self._snapshot(v) for k, v in env.vars.items()}
         leg = c.choose(['establish', 'preserve', 'exit'])
 
@@ -697,6 +703,9 @@ class Interp(object):
             if isinstance(v, Lane):
                 v.t = ir.var(c.fresh('h_' + nm, v.t.sort).args[0] + '@i', v.t.sort)
         for nm in names:
+            if nm in spec.havoc:
+                env.vars[nm] = spec.havoc[nm](c)
+                continue
             if nm in env.vars and nm not in spec.shapes:
                 if nm in stores and isinstance(env.vars[nm], Lane):
                     continue
@@ -719,7 +728,8 @@ class Interp(object):
         if leg == 1:
             if is_for:
                 c.assume(ir.lt(ghost['it'], N))
-                self.assign(s.target, Sym(ghost['it']), env, module, func)
+                self.assign(s.target, Sym(ghost['it']) if seq is None else seq.sym_seq_elem(Sym(ghost['it'])),
+                            env, module, func)
             for g in inv_terms(ghost):
                 c.assume(g)
             if not is_for:
@@ -736,14 +746,25 @@ class Interp(object):
                 return               # continue after the loop with the state at the break
             if spec.observe:
                 c.event('loop_body_end', spec.observe(view(ghost)), State.where)
-            g2 = dict(ghost)
+            alts = [{}]
             if spec.ghost_step:
-                g2.update(spec.ghost_step(view(ghost)))
-            if is_for:
-                g2['it'] = ir.add(ghost['it'], 1)
-            for j, g in enumerate(inv_terms(g2)):
-                c.oblige('%s.preserve.%d' % (spec.name, j), g, kind='invariant', where=State.where,
-                         hints=spec.hints(view(g2)) if spec.hints else ())
+                st = spec.ghost_step(view(ghost))
+                alts = st if isinstance(st, list) else [st]
+            conj = []
+            for st in alts:
+                g2 = dict(ghost)
+                g2.update(st)
+                if is_for:
+                    g2['it'] = ir.add(ghost['it'], 1)
+                conj.append(inv_terms(g2))
+            if len(conj) == 1:
+                for j, g in enumerate(conj[0]):
+                    c.oblige('%s.preserve.%d' % (spec.name, j), g, kind='invariant', where=State.where,
+                             hints=spec.hints(view(g2)) if spec.hints else ())
+            else:
+                # existential ghost: the invariant must hold for ONE of the candidate ghost updates
+                c.oblige('%s.preserve' % spec.name, ir.or_(*[ir.and_(*ts) for ts in conj]), kind='invariant',
+                         where=State.where)
             raise PathEnd()
         # exit leg
         if is_for:
